@@ -24,7 +24,7 @@ Scenario(ixs, szs, ds) ==
       listing == [i \in 1..Len(s) |-> [name |-> s[i].name, size |-> s[i].size, kind |-> s[i].kind]]
       perMember == Flatten([i \in 1..Len(s) |->
                      << VolIndex(s[i].name, i - 1), VolIndex(ToUpper(s[i].name), i - 1), VolIndex(ToLower(s[i].name), i - 1),
-                        VolIndex(<<46,47>> \o s[i].name, i - 1),
+                        VolIndex(<<46,47>> \o s[i].name, i - 1), VolIndex(<<113,47>> \o s[i].name, NoIndex),      \* "q/name" is a different path: not a member
                         VolStream(i - 1, s[i].data), VolExtract(i - 1, <<120,47>> \o s[i].name, s[i].data),
                         VolExtractByName(ToUpper(s[i].name), <<121,47>> \o s[i].name, s[i].data) >>])
   IN IF samePath THEN <<>> ELSE
